@@ -77,7 +77,14 @@ static json run_job(const json& job)
     std::ostringstream pretty_out;
     json main = guarded([&](json& r) {
         if (entry == "none") return;
-        if (builder == "document") {
+        if (builder == "document" && !job.value("analysis", true)) {
+            // the document builder alone: no type checker / feature checker afterwards
+            DocumentBuilder db{*doc};
+            if (entry == "xml_buffer") r["ret"] = parse_XML_buffer(text.c_str(), &db, newxta);
+            else if (entry == "xml_file") r["ret"] = parse_XML_file(job["file"].get<std::string>().c_str(), &db, newxta);
+            else if (entry == "xta") r["ret"] = (int)parse_XTA(text.c_str(), &db, newxta);
+            else throw std::invalid_argument("bad entry");
+        } else if (builder == "document") {
             if (entry == "xml_buffer") r["ret"] = parse_XML_buffer(text.c_str(), doc.get(), newxta);
             else if (entry == "xml_file") r["ret"] = parse_XML_file(job["file"].get<std::string>().c_str(), doc.get(), newxta);
             else if (entry == "xml_fd") { int fd = open(job["file"].get<std::string>().c_str(), O_RDONLY); r["ret"] = parse_XML_fd(fd, doc.get(), newxta); close(fd); }
